@@ -4,9 +4,9 @@ import (
 	_ "embed"
 	"fmt"
 	"os"
-	"regexp"
 	"os/exec"
 	"path/filepath"
+	"regexp"
 	"strings"
 	"sync"
 	"time"
@@ -141,11 +141,11 @@ type Built struct {
 
 type BuildStats struct {
 	mu       sync.Mutex
-	Skipped  []*Case  // goderive failed or its output does not compile: C01's business
-	Reasons  []string // first lines of the diagnostics for skipped cases
+	Skipped  []*Case        // goderive failed or its output does not compile: C01's business
+	Reasons  []string       // first lines of the diagnostics for skipped cases
 	Kinds    map[string]int // normalised diagnostic -> number of skipped cases
-	Goderive int      // goderive runs
-	Builds   int      // go build runs
+	Goderive int            // goderive runs
+	Builds   int            // go build runs
 }
 
 func (s *BuildStats) skip(cs *Case, why string) {
